@@ -333,6 +333,9 @@ impl Property for C19 {
             Tier::Thorough => 10_000_000,
         }
     }
+    fn raw_target(&self) -> Option<(&'static str, fn(&[u8]) -> Outcome)> {
+        Some(("send_tx", fuzz_payload))
+    }
     fn rule(&self) -> String {
         "Serialisations of generated transactions (legacy and segwit, 0..40 inputs/outputs, arbitrary versions, witness stacks) each unchanged, truncated at any length, extended by 1..8 bytes, bit-flipped, byte-overwritten, with marker/flag inserted (flags 0,1,2), with a non-minimal compact size, duplicated, prefixed, or replaced by raw bytes; all three networks x six network spellings x API flag. Oracle: a hand-written strict parser of the consensus format decides acceptance; accepted => Ok, send_transaction_count +1 and the recorder holds exactly (network, payload); otherwise MalformedTransaction (or a refusal for flag/network) with recorder and counter unchanged; secondary oracle: accepted => re-encoding the library-decoded transaction reproduces the payload. Non-trivial: a mutated payload (within a few bytes of a valid serialisation); distinct = payload hashes.".into()
     }
